@@ -400,12 +400,70 @@ fn gen_kernel_cases(k: &mut KRun, thorough: bool) {
                 }),
                 format!("(0..10).expanded({})", sb),
             );
-            for &c in &[1i64, 0, -1, 2, 9223372036854775807, -9223372036854775808] {
+            // StepToI64Iterator: every pull from either end and the size hint after each pull
+            for &c in &[1i64, 0, -1, 2, 3, 4611686018427387904, 9223372036854775807, -9223372036854775808] {
                 if !thorough && !(a.unsigned_abs() <= 2 || a == i64::MAX || a == i64::MIN) {
                     continue;
                 }
-                let src = format!("({}).step_to({}, {})", sa, sb, N::I(c).src());
-                k.add(format!("stepto {} {} {}", a, b, c), script_outcome(&src, |_| "iter".into()), src.clone());
+                for ops in ["ffffff", "bbbbbb", "fbfbfb", "bffbbf"] {
+                    if !thorough && ops != "ffffff" && ops != "bffbbf" {
+                        continue;
+                    }
+                    let src = format!("({}).step_to({}, {})", sa, sb, N::I(c).src());
+                    let imp = match script(&src) {
+                        Err(()) => "panic".to_string(),
+                        Ok(None) => "err".to_string(),
+                        Ok(Some(KValue::Iterator(it))) => {
+                            let mut it = it.clone();
+                            caught(move || {
+                                let mut out = vec![format!("h{}", it.size_hint().0)];
+                                for ch in ops.chars() {
+                                    let v = if ch == 'b' { it.next_back() } else { it.next() };
+                                    out.push(match v {
+                                        Some(koto_runtime::KIteratorOutput::Value(KValue::Number(KNumber::I64(i)))) => format!("{}{}", ch, i),
+                                        Some(_) => format!("{}?", ch),
+                                        None => format!("{}-", ch),
+                                    });
+                                    out.push(format!("h{}", it.size_hint().0));
+                                }
+                                format!("ok {}", out.join(" "))
+                            })
+                            .unwrap_or_else(|| "panic".to_string())
+                        }
+                        Ok(Some(_)) => "ok ?".to_string(),
+                    };
+                    k.add(format!("stepto {} {} {} {}", a, b, c, ops), imp, format!("{} pulled {}", src, ops));
+                }
+            }
+        }
+    }
+    // ---- list.retain with a predicate that resizes the list (scripts) ------------------------------------
+    {
+        let max_len0 = if thorough { 4 } else { 3 };
+        for len0 in 0..=max_len0 {
+            let choices: Vec<(bool, usize)> = [true, false].iter().flat_map(|k| (0..=5usize).map(move |n| (*k, n))).collect();
+            let total = choices.len().pow(len0 as u32);
+            for code in 0..total {
+                // len0 = 4: a fixed stride sample (20 736 combinations)
+                if len0 == 4 && code % 5 != 0 {
+                    continue;
+                }
+                let mut c = code;
+                let mut moves = vec![];
+                for _ in 0..len0 {
+                    moves.push(choices[c % choices.len()]);
+                    c /= choices.len();
+                }
+                let plan: Vec<String> = moves.iter().map(|(k, n)| format!("({}, {})", k, n)).collect();
+                let elems: Vec<String> = (0..len0).map(|i| i.to_string()).collect();
+                let src = format!(
+                    "l = [{}]\nplan = ({}{})\nst = {{i: 0}}\nl.retain |x|\n  keep, n = plan[st.i]\n  st.i += 1\n  while size(l) > n\n    l.pop()\n  while size(l) < n\n    l.push 9\n  keep\nsize l",
+                    elems.join(", "),
+                    plan.join(", "),
+                    if plan.len() == 1 { "," } else { "" }
+                );
+                let wire = if moves.is_empty() { "-".to_string() } else { moves.iter().map(|(k, n)| format!("{}{}", if *k { 't' } else { 'f' }, n)).collect::<Vec<_>>().join(",") };
+                k.add(format!("retain {} {}", len0, wire), script_outcome(&src, |v| as_i64(v).unwrap_or(-777).to_string()), src.replace('\n', "; "));
             }
         }
     }
